@@ -48,14 +48,16 @@ type refServer struct {
 	changed chan struct{}
 	issued  bool
 
-	push     chan string // JSON-RPC messages for the listening stream
-	streamUp chan struct{}
-	upOnce   sync.Once
-	cur      *liveStream // the listening stream in service (nil: none) — a newer GET supersedes the older one
-	ups      int         // number of listening streams that came up so far
-	done     chan struct{}
-	fail503  atomic.Bool  // answer the next tools/list with 503
-	failInit atomic.Value // "503" | "type": fail the next handshake's first request (initialize POST / legacy connect) that way
+	push      chan string // JSON-RPC messages for the listening stream
+	streamUp  chan struct{}
+	upOnce    sync.Once
+	cur       *liveStream // the listening stream in service (nil: none) — a newer GET supersedes the older one
+	ups       int         // number of listening streams that came up so far
+	done      chan struct{}
+	failTools atomic.Int32 // answer the next tools/list with this status (0: normally)
+	failNotif atomic.Int32 // answer the next roots/list_changed notification with this status
+	fail503   atomic.Bool  // answer the next tools/list with 503
+	failInit  atomic.Value // "503" | "type": fail the next handshake's first request (initialize POST / legacy connect) that way
 }
 
 // liveStream is one listening stream being served.
@@ -331,6 +333,12 @@ func (s *refServer) serveStreamable(w http.ResponseWriter, r *http.Request, rc r
 			http.Error(w, "busy", 503)
 			return
 		}
+		if rc.RPC == "tools/list" {
+			if code := s.failTools.Swap(0); code != 0 {
+				http.Error(w, "refused by the reference server", int(code))
+				return
+			}
+		}
 		if rc.RPC == "initialize" && s.failedFirst(w) {
 			return
 		}
@@ -343,6 +351,12 @@ func (s *refServer) serveStreamable(w http.ResponseWriter, r *http.Request, rc r
 		w.Header().Set("Content-Type", "application/json")
 		fmt.Fprintf(w, `{"jsonrpc":"2.0","id":%s,"result":%s}`, rc.ID, resultFor(rc.RPC))
 	case "notification", "answer":
+		if rc.RPC == "notifications/roots/list_changed" {
+			if code := s.failNotif.Swap(0); code != 0 {
+				http.Error(w, "refused by the reference server", int(code))
+				return
+			}
+		}
 		w.WriteHeader(202)
 	case "stream":
 		s.stream(w, r, "", func(n int, msg string) string { return fmt.Sprintf("id: %d\ndata: %s\n\n", n, msg) })
@@ -371,12 +385,24 @@ func (s *refServer) serveLegacy(w http.ResponseWriter, r *http.Request, rc rec) 
 				http.Error(w, "busy", 503)
 				return
 			}
+			if rc.RPC == "tools/list" {
+				if code := s.failTools.Swap(0); code != 0 {
+					http.Error(w, "refused by the reference server", int(code))
+					return
+				}
+			}
 			w.WriteHeader(202)
 			select {
 			case s.push <- fmt.Sprintf(`{"jsonrpc":"2.0","id":%s,"result":%s}`, rc.ID, resultFor(rc.RPC)):
 			case <-s.done:
 			}
 		case "notification", "answer":
+			if rc.RPC == "notifications/roots/list_changed" {
+				if code := s.failNotif.Swap(0); code != 0 {
+					http.Error(w, "refused by the reference server", int(code))
+					return
+				}
+			}
 			w.WriteHeader(202)
 		default:
 			http.Error(w, "bad request", 400)
